@@ -67,8 +67,8 @@ var libOptExempt = map[string]string{
 
 func init() {
 	register(&PropSpec{ID: "C01",
-		Explain:     "Decides necessary structural conditions of the v2 diff-then-patch round trip: (R-FWD) every recursive patch call hands the callee the caller's own old/new values, strategy and remaining path; (R-OPTFWD, patch side) identity lookups in patch use the options the path element prescribes; (R-PATHFRESH) no hunk shares its path's backing array with the recursion; (R-KINDS) the path element kind a container's diff emits is routed by next()+dispatch back to the same container semantics and accepted by its patch; (R-PROV) removes come from the receiver side, adds from the argument side.",
-		NotDecided:  "The LCS walk's cursor arithmetic, index validity after earlier hunks, list splice arithmetic, keyed-set matching on concrete values: value-level, not decided.",
+		Explain:     "Decides necessary structural conditions of the v2 diff-then-patch round trip: (R-FWD) every recursive patch call hands the callee the caller's own old/new values, strategy and remaining path; (R-OPTFWD, patch side) identity lookups in patch use the options the path element prescribes; (R-PATHFRESH) no hunk shares its path's backing array with the recursion; (R-KINDS) the path element kind a container's diff emits is routed by next()+dispatch back to the same container semantics and accepted by its patch; (R-PROV) removes come from the receiver side, adds from the argument side. (R-CURSOR) at every use of the list walk's path cursor (index of the next hunk, path of a nested diff) the cursor equals pathIndex plus the number of elements of the second list already passed — decided by an abstract interpretation over constant offsets and the two end-of-list predicates; the element handed on as the next before-context is b[B-1]. (R-HUNKRAW) set/multiset diffs never store their own view of the array in a hunk. (R-ROOTPATH) every exported Diff starts at the empty path. (R-HASHMOVE, identity clause) values an identity is built from reach the digest with their keys.",
+		NotDecided:  "Which elements the LCS walk moves into Remove/Add (the cursor-to-index relation itself is decided by R-CURSOR), list splice arithmetic, keyed-set matching on concrete values: value-level, not decided.",
 		Assumptions: commonAssumptions,
 		Run: func(w *World, r *Report) {
 			v2 := w.Pkg(pathV2)
@@ -321,7 +321,7 @@ var v2Prov = map[string]string{"Remove": "a", "Add": "b", "Before": "b", "After"
 
 func init() {
 	register(&PropSpec{ID: "C07",
-		Explain:     "Decides structural necessary conditions of `every hunk is a real difference`: (R-NOEMPTY) an accumulated set/multiset hunk is emitted only behind a test that it removes or adds something, and the scalar diff returns the empty diff exactly on the Equals-true edge; (R-SETMEMBER) the set diff lists a member only on the miss edge of its lookup among the other side's members; (R-PROV) what a hunk removes is drawn from the receiver side only, what it adds from the argument side only; (R-PATHFRESH) a hunk owns its path, so it keeps addressing the location it was made for. (R-BAGCOUNT) the number of copies the multiset diff lists derives from the multiplicities on both sides.",
+		Explain:     "Decides structural necessary conditions of `every hunk is a real difference`: (R-NOEMPTY) an accumulated set/multiset hunk is emitted only behind a test that it removes or adds something, and the scalar diff returns the empty diff exactly on the Equals-true edge; (R-SETMEMBER) the set diff lists a member only on the miss edge of its lookup among the other side's members; (R-PROV) what a hunk removes is drawn from the receiver side only, what it adds from the argument side only; (R-PATHFRESH) a hunk owns its path, so it keeps addressing the location it was made for. (R-BAGCOUNT) the number of copies the multiset diff lists derives from the multiplicities on both sides. (R-CURSOR, R-ROOTPATH) hunks address the position they were computed for; (R-LCSDEP, pairwise clause) same-kind containers are not replaced wholesale.",
 		NotDecided:  "That what a hunk removes differs from what it adds, leave-one-out redundancy, the list diff's discarding of an empty accumulator (closure over a mutable cell), multiset surplus counts (sign test on a count difference).",
 		Assumptions: commonAssumptions,
 		Run: func(w *World, r *Report) {
@@ -420,7 +420,7 @@ func init() {
 			r.Floor("R-PTR", 6)
 		}})
 	register(&PropSpec{ID: "C10",
-		Explain:     "Decides structural necessary conditions of `never more permissive than RFC 6902`: (R-OPSUBSET) the reader's op vocabulary is exactly add/remove/test, a test commits only if the next op is a remove of the same pointer with an equal value (each failing side only returns errors), any other op only reaches error returns; (R-PARENT) a test op is consumed as list context only after its pointer was related to the edit's pointer beyond the last index (same array); (R-PTRREAD) pointer tokens are decoded, \"-\" maps to -1, digits to indices; (R-PREPEND) a coalesced add is placed in front of those already collected; (R-FWD on before/after) the context the reader records reaches the array it belongs to at any depth. (R-CTXINDEX) the writer whose output the reader must reproduce addresses index-1 / index+len(Remove).",
+		Explain:     "Decides structural necessary conditions of `never more permissive than RFC 6902`: (R-OPSUBSET) the reader's op vocabulary is exactly add/remove/test, a test commits only if the next op is a remove of the same pointer with an equal value (each failing side only returns errors), any other op only reaches error returns; (R-PARENT) a test op is consumed as list context only after its pointer was related to the edit's pointer beyond the last index (same array); (R-PTRREAD) pointer tokens are decoded, \"-\" maps to -1, digits to indices; (R-PREPEND) a coalesced add is placed in front of those already collected; (R-FWD on before/after) the context the reader records reaches the array it belongs to at any depth. (R-CTXINDEX) the writer whose output the reader must reproduce addresses index-1 / index+len(Remove). Negative rows of R-PATCHSEQ: a test that is not adjacent to the edit is never folded into before-context, a test above the edit never into after-context. R-DASHAPPEND: the index -1 exit commits only behind loops that let nothing but the boundary marker pass as context, and appends behind the members. R-PREPEND/R-COALESCE: adds coalesced at the append position keep their order; an element with context of its own is not folded into the previous hunk. R-PARENT/R-OPSUBSET compare fields of two different ops.",
 		NotDecided:  "The full index case analysis of the context inference (which of up to three ops are context for every op sequence).",
 		Assumptions: commonAssumptions,
 		Run: func(w *World, r *Report) {
@@ -489,7 +489,7 @@ func init() {
 			safely(r, "ruleObjRecurse", func() { ruleObjRecurse(w, r, v2, "v2") })
 		}})
 	register(&PropSpec{ID: "C12",
-		Explain:     "Decides structural necessary conditions of reading RFC 7386: (R-MERGEHUNK, reader side) every hunk readMergeInto builds carries Metadata.Merge, a null becomes a void addition (delete), and patchAll selects merge strategy exactly for hunks with the flag (R-FWD driver), so the leaf patch replaces instead of demanding an old value. A fresh empty object enters a hunk only on the edge where the patch object has no members (RFC 7386 merges a non-empty patch object member by member).",
+		Explain:     "Decides structural necessary conditions of reading RFC 7386: (R-MERGEHUNK, reader side) every hunk readMergeInto builds carries Metadata.Merge, a null becomes a void addition (delete), and patchAll selects merge strategy exactly for hunks with the flag (R-FWD driver), so the leaf patch replaces instead of demanding an old value. A fresh empty object enters a hunk only on the edge where the patch object has no members (RFC 7386 merges a non-empty patch object member by member). (R-MERGEKEEP) the object patch's merge leaf can answer with the object it was applied to (MergePatch(T, {}) = T). (R-MERGEROOT) the reader never answers with the empty diff and tells the root null apart from a member null — both violated on today's tree and pinned by the suite: known findings K5, K6.",
 		NotDecided:  "Conformance with the RFC pseudo-code on values (known divergence: a nested {} over an existing object replaces it).",
 		Assumptions: commonAssumptions,
 		Run: func(w *World, r *Report) {
@@ -511,7 +511,7 @@ func init() {
 
 func init() {
 	register(&PropSpec{ID: "C06",
-		Explain:     "Decides narrow structural necessary conditions of a minimal list diff with context: (R-LCSDEP) the common subsequence handed to the hunk walk is computed by a call that receives the hash sequences of both arrays, each sequence is built from its own side's element hashCodes, the continuation of the walk receives the rest of the caller's sequences, and same-kind containers at the same position are diffed recursively on the sameContainerType-true edge instead of being replaced; (R-CTX1) every Before/After stored into a list hunk is a one-element list and the accumulating hunk is created with its before-context; (R-PROV) Before is drawn from the argument side and After from the receiver side (that is how list patch compares them).",
+		Explain:     "Decides narrow structural necessary conditions of a minimal list diff with context: (R-LCSDEP) the common subsequence handed to the hunk walk is computed by a call that receives the hash sequences of both arrays, each sequence is built from its own side's element hashCodes, the continuation of the walk receives the rest of the caller's sequences, and same-kind containers at the same position are diffed recursively on the sameContainerType-true edge instead of being replaced; (R-CTX1) every Before/After stored into a list hunk is a one-element list and the accumulating hunk is created with its before-context; (R-PROV) Before is drawn from the argument side and After from the receiver side (that is how list patch compares them). (R-CURSOR) the walk's path cursor relation and the handed-on context element b[B-1]; (R-LCSDEP, pairwise clause) one position is replaced by another only behind the false outcome of the same-kind test.",
 		NotDecided:  "Minimality itself (size of the edit script against an optimum for every pair) and that the recorded context equals the neighbouring element: numeric/value statements.",
 		Assumptions: commonAssumptions,
 		Run: func(w *World, r *Report) {
